@@ -50,7 +50,7 @@ type Cfg struct {
 	FsizeEvents int `json:"fsize_events,omitempty"`
 }
 type Op struct {
-	K       string `json:"k"` // w | reopen | extren | pause | rmdir | rmactive | touch | append
+	K       string `json:"k"` // w | reopen | extren | pause | rmdir | rmactive | touch | append | chmod | newsink
 	Size    int    `json:"size,omitempty"`
 	PauseUs int    `json:"pause_us,omitempty"`
 	Ctx     int    `json:"ctx,omitempty"` // w: which kind of context Process is called with (see ctxOf)
@@ -60,6 +60,7 @@ type Op struct {
 	When    int    `json:"when,omitempty"`    // touch: 0 now, 1 an hour ago, 2 in an hour
 	How     int    `json:"how,omitempty"`     // touch: 0 Chtimes, 1 chmod and back, 2 rewrite in place (same name, content and mode; new inode)
 	Src     int    `json:"src,omitempty"`     // append: the event whose bytes are appended
+	FMode   int    `json:"fmode,omitempty"`   // chmod: the mode the file is left with
 }
 type Case struct {
 	ID      int    `json:"id"`
@@ -546,8 +547,11 @@ func execSeq(c Case, root string) (res result) {
 		fmtKey = el.JSONFormat
 	}
 	_ = top
-	fs := &el.FileSink{Path: sinkPath, Format: c.Cfg.Format, FileName: c.Cfg.FileName, MaxBytes: c.Cfg.MaxBytes, MaxFiles: c.Cfg.MaxFiles,
-		MaxDuration: time.Duration(c.Cfg.MaxDurMs) * time.Millisecond, TimestampOnlyOnRotate: c.Cfg.TsOnly, Mode: os.FileMode(c.Cfg.Mode)}
+	newSink := func() *el.FileSink {
+		return &el.FileSink{Path: sinkPath, Format: c.Cfg.Format, FileName: c.Cfg.FileName, MaxBytes: c.Cfg.MaxBytes, MaxFiles: c.Cfg.MaxFiles,
+			MaxDuration: time.Duration(c.Cfg.MaxDurMs) * time.Millisecond, TimestampOnlyOnRotate: c.Cfg.TsOnly, Mode: os.FileMode(c.Cfg.Mode)}
+	}
+	fs := newSink()
 	var outF, errF *os.File
 	special := c.Cfg.Path != "dir"
 	switch c.Cfg.Path {
@@ -828,6 +832,28 @@ func execSeq(c Case, root string) (res result) {
 			last = t
 			steps = append(steps, step{"XOp (Pause " + hc.Z(t) + ")", o})
 			res.obs, res.feeds, prev = append(res.obs, o), append(res.feeds, Feed{T: [5]int64{t}}), o
+		case "chmod", "newsink":
+			// somebody chmods one of the sink's files and leaves it so; or the program replaces the sink object by a new one with the
+			// same configuration on the same path (its first open then finds the files — and their modes — already there)
+			t := after(last+t0) - t0
+			lit := "XOp (Pause " + hc.Z(t) + ")"
+			if !special {
+				if op.K == "newsink" {
+					fs = newSink() // the old object (and its descriptor) is simply dropped
+					open, activeName = false, ""
+					lit = "XNewSink " + hc.Z(t)
+					tampers++
+				} else if prev != nil && op.Pos < len(prev.Files) {
+					if os.Chmod(filepath.Join(dir, prev.Files[op.Pos].Name), os.FileMode(op.FMode)) == nil {
+						lit = fmt.Sprintf("XChmod %s %s %s", hc.N(op.Pos), hc.N(op.FMode), hc.Z(t))
+						tampers++
+					}
+				}
+			}
+			o := observe(true, nil)
+			last = max64(t, nowNs()-t0)
+			steps = append(steps, step{lit, o})
+			res.obs, res.feeds, prev = append(res.obs, o), append(res.feeds, Feed{T: [5]int64{t}}), o
 		case "touch", "append":
 			// somebody else touches one of the sink's files: metadata only (mtime to now / the past / the future, chmod and
 			// back, rewritten in place) — invisible to the model, which knows names, modes and contents — or appends the
@@ -902,7 +928,7 @@ func execSeq(c Case, root string) (res result) {
 		default:
 			panic("unknown op " + op.K)
 		}
-		lastWasRm = op.K == "rmdir" || op.K == "rmactive"
+		lastWasRm = op.K == "rmdir" || op.K == "rmactive" || op.K == "chmod"
 	}
 	res.stats["external_removals_done"] = removals
 	res.stats["external_touch_or_append_done"] = tampers
@@ -1021,6 +1047,15 @@ func genOp(r *hc.Rand, cs Case, fs *el.FileSink, open bool, nextKey int, lastWas
 			return Op{K: "rmactive"}
 		case y < 17 && nfiles > 0:
 			return Op{K: "append", Pos: r.Intn(nfiles), Src: 1 + r.Intn(nextKey-1)}
+		case y < 25 && nfiles > 0:
+			// mostly the newest (= active) file; a mode looser or tighter than the configured one, or the default 0600 itself
+			pos := nfiles - 1
+			if r.Chance(1, 4) {
+				pos = r.Intn(nfiles)
+			}
+			return Op{K: "chmod", Pos: pos, FMode: []int{0o644, 0o666, 0o640, 0o600, 0o400}[r.Intn(5)]}
+		case y < 29:
+			return Op{K: "newsink"}
 		}
 	}
 	if nfiles > 0 && r.Chance(7, 100) {
@@ -1613,7 +1648,11 @@ func main() {
 			}
 			g := r.Fork()
 			for i := 0; i < n; i++ {
-				todo = append(todo, Case{ID: id, Gen: m, Cfg: genCfg(g, m == "timed"), Len: *length, Seed: g.U64(), Rm: m == "seqrm"})
+				cfg := genCfg(g, m == "timed")
+				if m == "seqrm" && g.Chance(1, 3) {
+					cfg.Mode = 0o600 // the default, configured explicitly: must behave like any other explicit mode (chmod on every open)
+				}
+				todo = append(todo, Case{ID: id, Gen: m, Cfg: cfg, Len: *length, Seed: g.U64(), Rm: m == "seqrm"})
 				id++
 			}
 		case "special":
